@@ -9,7 +9,7 @@ EXPLANATION = ('Static rules on GroupByObserver: G1 in next() the group of a new
                'or_insert_with closure) before the item is forwarded; on every path the item is forwarded exactly once, to the map entry looked '
                'up under the key computed from this very item, and the announced group wraps a clone of the subject that is inserted; G2 '
                'error()/complete() deliver the terminal to every drained group and then, once, to the outer observer; G5 the key map is indexed by the key value itself (key type parameter, entry(key)); G4 next() never removes a group from the key map (one group per key for the life of the source); G3 GroupByOp is '
-               'instantiated for Subject and SubjectThreads only (handle types). Does not decide first-appearance order, hash routing or '
+               'instantiated for Subject and SubjectThreads only (handle types). G6 every source delivers its terminal on every path, also when the observer reports finished early, so that it reaches the groups through G2 (same rule as C03.S1). Does not decide first-appearance order, hash routing or '
                'round-trip equality.')
 ASSUMPTIONS = ['HashMap::entry/or_insert_with behave as documented']
 TAG = 'ops::group_by::GroupByObserver'
@@ -127,4 +127,10 @@ def check(cx):
         res.append(Finding(ID, 'G3', 'Observable for ' + im['self_s'], ok, 'group subject type fixed to %s' % st, im['span']))
     if len(ims) != 2:
         res.append(Finding(ID, 'G3', 'floor', False, 'expected the two GroupByOp instantiations, found %d' % len(ims)))
+    # G6: the groups only learn about the end of the source through GroupByObserver's own complete()/error(): every source delivers
+    # its terminal on every path, also when the stream of groups reports finished early (same rule as C03.S1)
+    from . import c03
+    for f in c03.s1(cx):
+        if not f.key.startswith(('table:', 'floor')):
+            res.append(Finding(ID, 'G6', f.key, f.ok, f.msg, f.loc, f.witness))
     return res
